@@ -193,6 +193,11 @@ fn run_hist_from<T: BE>(case: &Value, out: &mut Out, k0: usize) {
             match &res { Res::B(b) => { e["rb"] = jband(b, Part::Re); e["rbi"] = jband(b, Part::Im); } _ => { e["rb"] = post[0].clone(); e["rbi"] = post[1].clone(); } }
             out.ev(e); continue;
         }
+        if T::CX && matches!(name, "div_scalar" | "div_assign") && op.get("si").and_then(|v| v.as_i64()).unwrap_or(0) != 0 {
+            let mut e = base(0); e["op"] = json!("div_cx"); e["src"] = json!(name); e["prei"] = pre[1].clone(); e["s"] = op["s"].clone(); e["si"] = op["si"].clone();
+            match &res { Res::B(b) => { e["rb"] = jband(b, Part::Re); e["rbi"] = jband(b, Part::Im); } _ => { e["rb"] = post[0].clone(); e["rbi"] = post[1].clone(); } }
+            out.ev(e); continue;
+        }
         let parts = if T::CX && name != "dims" { 2 } else { 1 };
         for w in 0..parts {
             let pw = if w == 0 { Part::Re } else { Part::Im };
@@ -328,7 +333,16 @@ fn run_lu<T: BE>(case: &Value, out: &mut Out) {
     let bc: Vec<(f64, f64)> = b.vec.iter().map(|x| x.to_c()).collect();
     let det = guarded(|| m.det());
     let sol = guarded(|| m.solve(&b));
-    if exact {
+    if T::CX && gets(case, "mode") == "exact" {
+        // Gaussian-integer data on which every complex float operation of the elimination is exact: judged over Gaussian rationals
+        let pre = json!({"n": case["band"]["n"], "m1": case["band"]["m1"], "m2": case["band"]["m2"], "c": case["band"]["c"]}); let prei = im_band(&case["band"]);
+        let bi = case.get("bi").cloned().unwrap_or_else(|| zeros_like(&case["b"]));
+        let (rq, rqi) = match det.as_ref().ok().and_then(to_rat2) { Some((a, b)) => (jrat(a), jrat(b)), None => (json!([BAD, 1]), json!([BAD, 1])) };
+        emit(out, &mut k, json!({"op": "det_cx", "pre": pre, "prei": prei, "panic": det.is_err(), "rq": rq, "rqi": rqi}));
+        let conv: Option<Vec<(Rat, Rat)>> = sol.as_ref().ok().and_then(|x| x.vec.iter().map(to_rat2).collect());
+        let (xs, xsi, l) = match conv.and_then(|v| cx_common_den(&v, LIM)) { Some((a, b, l)) => (Value::from(a), Value::from(b), json!(l)), None => (Value::from(vec![BAD; n]), Value::from(vec![BAD; n]), json!(BAD)) };
+        emit(out, &mut k, json!({"op": "solve_cx", "pre": pre, "prei": prei, "b": case["b"], "bi": bi, "panic": sol.is_err(), "xs": xs, "xsi": xsi, "L": l, "msg": sol.as_ref().err().cloned().unwrap_or_default()}));
+    } else if exact {
         // the operand of these two events is the matrix the CASE prescribes (generators keep its determinant and
         // solution inside TLC's integers); that the object under test holds exactly these in-band entries is the "built" event
         let pre = json!({"n": case["band"]["n"], "m1": case["band"]["m1"], "m2": case["band"]["m2"], "c": case["band"]["c"]});
@@ -447,10 +461,13 @@ fn hist_ops(rng: &mut StdRng, n: usize, m1: usize, m2: usize, cx: bool, len: usi
             7 => json!({"op": "sub", "form": form, "b": rand_band_int(rng, n, m1, m2, -9, 9)}),
             8 => json!({"op": "add_assign", "form": form, "b": rand_band_int(rng, n, m1, m2, -9, 9)}),
             9 => json!({"op": "sub_assign", "form": form, "b": rand_band_int(rng, n, m1, m2, -9, 9)}),
-            10 => json!({"op": "mul_scalar", "form": form, "s": rng.gen_range(-3..=3), "si": rng.gen_range(-3..=3)}),
-            11 => json!({"op": "div_scalar", "form": form, "s": if rng.gen_bool(0.5) { 1 } else { -1 }}),
+            10 => { let (s, si) = if cx && rng.gen_bool(0.6) { [(0i64, 1i64), (0, -1), (0, 2), (-1, 0)][rng.gen_range(0..4)] } else { (rng.gen_range(-3..=3), rng.gen_range(-3..=3)) };
+                    json!({"op": "mul_scalar", "form": form, "s": s, "si": si}) }
+            11 => { let (s, si) = if cx { [(0i64, 1i64), (0, -1), (-1, 0), (1, 0)][rng.gen_range(0..4)] } else { (if rng.gen_bool(0.5) { 1 } else { -1 }, 0) };
+                    json!({"op": "div_scalar", "form": form, "s": s, "si": si}) }
             12 => { if scale_budget == 0 { json!({"op": "clone"}) } else { scale_budget -= 1; json!({"op": "mul_assign", "s": ([-2i64, 2, 3, -1][rng.gen_range(0..4)]), "si": rng.gen_range(-1..=1)}) } }
-            13 => json!({"op": "div_assign", "s": if rng.gen_bool(0.5) { 1 } else { -1 }}),
+            13 => { let (s, si) = if cx { [(0i64, 1i64), (0, -1), (-1, 0), (1, 0)][rng.gen_range(0..4)] } else { (if rng.gen_bool(0.5) { 1 } else { -1 }, 0) };
+                    json!({"op": "div_assign", "s": s, "si": si}) }
             14 => json!({"op": "add_scalar_assign", "s": rng.gen_range(-9..=9), "si": rng.gen_range(-9..=9)}),
             15 => json!({"op": "sub_scalar_assign", "s": rng.gen_range(-9..=9), "si": rng.gen_range(-9..=9)}),
             16 | 17 => json!({"op": "matvec", "form": form, "v": rand_vec_json(rng, n, -5, 5), "vi": rand_vec_json(rng, n, -5, 5)}),
@@ -465,6 +482,7 @@ fn hist_ops(rng: &mut StdRng, n: usize, m1: usize, m2: usize, cx: bool, len: usi
     let s = [2i64, -2, 3, 5][rng.gen_range(0..4)];
     ops.push(json!({"op": "fill", "x": s * rng.gen_range(-4..=4), "xi": s * rng.gen_range(-4..=4)}));
     ops.push(json!({"op": "mul_assign", "s": s}));
+    if cx { ops.push(json!({"op": "mul_assign", "s": 2})); ops.push(json!({"op": "div_scalar", "form": "own", "s": 0, "si": 2})); ops.push(json!({"op": "div_assign", "s": 0, "si": -2})); ops.push(json!({"op": "mul_assign", "s": 0, "si": 1})); }
     ops.push(json!({"op": "div_scalar", "form": "ref", "s": s}));
     ops.push(json!({"op": "div_assign", "s": s}));
     ops.push(json!({"op": "new", "n": n, "m1": m1, "m2": m2, "x": rng.gen_range(-9..=9), "xi": rng.gen_range(-9..=9)}));
@@ -475,6 +493,7 @@ fn hist_ops(rng: &mut StdRng, n: usize, m1: usize, m2: usize, cx: bool, len: usi
 
 pub fn gen(tier: &str, seed: u64, out: &mut Out) {
     let quick = tier == "quick";
+    if std::env::var("BAND_DEBUG").is_ok() { std::panic::set_hook(Box::new(|i| eprintln!("{}", i))); }
     let mut rng = rng(seed, 4);
     let mut cid = 0i64;
     let mut push = |out: &mut Out, mut c: Value| { cid += 1; c["cid"] = json!(cid); c["suite"] = json!("banded"); out.raw(&c); };
@@ -491,15 +510,17 @@ pub fn gen(tier: &str, seed: u64, out: &mut Out) {
             push(out, json!({"kind": "hist", "ty": ty, "band": band, "ops": ops}));
         } }
         // (b) det / solve / product for every value family
-        for fam in 0..7usize { for rep in 0..(if quick { 1 } else { 3 }) {
-            let tys: Vec<&str> = if quick { vec![TYS[(t + fam + rep) % 3]] } else { TYS.to_vec() };
+        // (family 7, Complex only: every entry exactly on the real or on the imaginary axis)
+        for fam in 0..8usize { for rep in 0..(if quick { 1 } else { 3 }) {
+            let tys: Vec<&str> = if fam == 7 { vec!["cx"] } else if quick { vec![TYS[(t + fam + rep) % 3]] } else { TYS.to_vec() };
+            let famx = if fam == 7 { 1 } else { fam };
             for ty in tys {
                 if fam == 6 && ty == "rat" { continue; }
                 let fl = ty != "rat";
                 let bvec: Vec<i64> = (0..n).map(|_| rng.gen_range(-9..=9)).collect();
                 let mut v = 9i64; let mut tries = 0;
-                let a = loop {
-                    let mut a = family(&mut rng, n, m1, m2, fam, v, fl);
+                let mut a = loop {
+                    let mut a = family(&mut rng, n, m1, m2, famx, v, fl);
                     if fam == 5 {   // singular family: insist on determinant zero (zero column as a fallback)
                         let mut t2 = 0; while bareiss(&to_i128(&a)).0 != 0 && t2 < 6 { a = family(&mut rng, n, m1, m2, fam, v, fl); t2 += 1; }
                         if bareiss(&to_i128(&a)).0 != 0 { let k = rng.gen_range(0..n); for i in 0..n { a[i][k] = (0, 0); } }
@@ -508,12 +529,13 @@ pub fn gen(tier: &str, seed: u64, out: &mut Out) {
                     tries += 1; if tries % 3 == 0 && v > 1 { v = (v + 1) / 2; }
                     if tries > 40 { break (0..n).map(|i| (0..n).map(|j| if i == j { (1, 0) } else { (0, 0) }).collect()).collect(); }
                 };
-                let mut band = band_json(&mut rng, n, m1, m2, &a, if fl { -7 } else { 0 });
+                // imaginary parts: same family drawn again (so that magnitudes, not signs of the real part, decide)
+                let mut ai = if ty == "cx" { family(&mut rng, n, m1, m2, if fam == 3 || fam == 5 { fam } else { 1 }, 9, false) } else { vec![] };
+                if fam == 7 { for i in 0..n { for j in 0..n { if rng.gen_bool(0.5) { a[i][j] = (0, 0); if ai[i][j].0 == 0 && in_band(n, m1, m2, i, j) { ai[i][j] = (nz(&mut rng, 9), 0); } } else { ai[i][j] = (0, 0); } } } }
+                let mut band = band_json(&mut rng, n, m1, m2, &a, if fl && fam != 7 { -7 } else { 0 });
                 let mut case = json!({"kind": "lu", "ty": ty, "fam": fam, "b": bvec});
                 let intdata = a.iter().flatten().all(|p| p.1 == 0) && band["c"]["d"].as_array().unwrap().iter().all(|x| x.is_i64());
                 if ty == "cx" {
-                    // imaginary parts: same family drawn again (so that magnitudes, not signs of the real part, decide)
-                    let ai = family(&mut rng, n, m1, m2, if fam == 3 || fam == 5 { fam } else { 1 }, 9, false);
                     let bi = band_json(&mut rng, n, m1, m2, &ai, 0);
                     band["ci"] = bi["c"].clone();
                     case["bi"] = rand_vec_json(&mut rng, n, -9, 9);
@@ -544,6 +566,11 @@ pub fn gen(tier: &str, seed: u64, out: &mut Out) {
         if quick && geos.len() > 2 { let off = rng.gen_range(0..geos.len()); geos = vec![geos[off], geos[(off + 1) % geos.len()]]; }
         for (m1, m2) in geos { let mut v = vec![]; scaled_cases(&mut rng, n, m1, m2, quick, &mut v); for c in v { push(out, c); } }
     }
+    // (f) Gaussian-integer systems with purely imaginary pivots, judged exactly over Gaussian rationals (Complex)
+    for n in 1..=10usize { for rep in 0..(if quick { 6 } else { 30 }) {
+        let w = if n >= 8 { 2 } else { 4 }; let p = rng.gen_range(0..n.min(w)); let q = rng.gen_range(0..n.min(w));
+        for _ in 0..80 { if let Some(c) = gauss_case(&mut rng, n, p, q, rep % 2 == 1) { push(out, c); break; } }
+    } }
     // (d) sequences on one object: det / solve / product / reads before and after EVERY mutating operation
     for n in 1..=10usize {
         let mut geos: Vec<(usize, usize)> = vec![(0, 0)];
@@ -580,7 +607,7 @@ impl Sim {
             "add_assign" => all(&mut self.c, &|v, i, k| v + bd[i * mm + k]),
             "sub_assign" => all(&mut self.c, &|v, i, k| v - bd[i * mm + k]),
             "mul_assign" => all(&mut self.c, &|v, _, _| v * s),
-            "div_assign" => all(&mut self.c, &|v, _, _| v / s),
+            "div_assign" => if s != 0 { all(&mut self.c, &|v, _, _| v / s) },
             "add_scalar_assign" => all(&mut self.c, &|v, _, _| v + s),
             "sub_scalar_assign" => all(&mut self.c, &|v, _, _| v - s),
             "resize" => { let (n, m1, m2) = (getu(op, "n"), getu(op, "m1"), getu(op, "m2")); let mm2 = m1 + m2 + 1;
@@ -589,6 +616,11 @@ impl Sim {
             _ => {}
         }
     }
+}
+/// Complex data: two thirds of the slots are put exactly on the real or on the imaginary axis
+fn on_axes(rng: &mut StdRng, band: &mut Value) {
+    let len = band["c"]["d"].as_array().unwrap().len();
+    for k in 0..len { match rng.gen_range(0..3) { 0 => band["c"]["d"][k] = json!(0), 1 => band["ci"]["d"][k] = json!(0), _ => {} } }
 }
 /// probes after every mutation: det, solve, product, all in-band reads (det / solve only where TLC can decide them)
 fn probes(rng: &mut StdRng, sim: &Sim, exact: bool, cx: bool, ops: &mut Vec<Value>) -> bool {
@@ -602,7 +634,7 @@ fn probes(rng: &mut StdRng, sim: &Sim, exact: bool, cx: bool, ops: &mut Vec<Valu
 /// one sequence: probes, then EVERY mutating operation of the type, each followed by the probes again
 fn seq_case(rng: &mut StdRng, n: usize, m1: usize, m2: usize, ty: &str, mag: i64) -> (Value, f64) {
     let cx = ty == "cx"; let exact = ty == "rat";
-    let mut band = rand_band_int(rng, n, m1, m2, -mag, mag); if cx { band = with_im(rng, band, -mag, mag); }
+    let mut band = rand_band_int(rng, n, m1, m2, -mag, mag); if cx { band = with_im(rng, band, -mag, mag); on_axes(rng, &mut band); }
     let mut sim = Sim::from_band(&band);
     let mut ops = vec![]; let (mut fitn, mut tot) = (0usize, 0usize);
     let mut probe = |rng: &mut StdRng, sim: &Sim, ops: &mut Vec<Value>| { tot += 1; if probes(rng, sim, exact, cx, ops) { fitn += 1; } };
@@ -619,8 +651,11 @@ fn seq_case(rng: &mut StdRng, n: usize, m1: usize, m2: usize, ty: &str, mag: i64
             4 => vec![json!({"op": "add_assign", "form": "own", "b": rand_band_int(rng, cn, cm1, cm2, -2, 2)})],
             5 => vec![json!({"op": "sub_assign", "form": "ref", "b": rand_band_int(rng, cn, cm1, cm2, -2, 2)})],
             6 => vec![json!({"op": "sub_assign", "form": "own", "b": rand_band_int(rng, cn, cm1, cm2, -2, 2)})],
-            7 => vec![json!({"op": "mul_assign", "s": ([2i64, -2, 3][rng.gen_range(0..3)])})],
-            8 => { let s = [2i64, -2, 3][rng.gen_range(0..3)]; vec![json!({"op": "mul_assign", "s": s}), json!({"op": "div_assign", "s": s})] }   // exact division
+            7 => if cx { let z = [(0i64, 1i64), (0, -1), (0, 2), (-1, 0)][rng.gen_range(0..4)]; vec![json!({"op": "mul_assign", "s": z.0, "si": z.1, "keepsi": true})] }
+                 else { vec![json!({"op": "mul_assign", "s": ([2i64, -2, 3][rng.gen_range(0..3)])})] },
+            8 => if cx { let z = [(0i64, 2i64), (0, -2)][rng.gen_range(0..2)]; let w = [(0i64, 1i64), (0, -1), (-1, 0)][rng.gen_range(0..3)];      // exact divisions by 2i, -2i, i, -i, -1
+                     vec![json!({"op": "mul_assign", "s": 2}), json!({"op": "div_assign", "s": z.0, "si": z.1, "keepsi": true}), json!({"op": "div_assign", "s": w.0, "si": w.1, "keepsi": true})] }
+                 else { let s = [2i64, -2, 3][rng.gen_range(0..3)]; vec![json!({"op": "mul_assign", "s": s}), json!({"op": "div_assign", "s": s})] },   // exact division
             9 => vec![json!({"op": "add_scalar_assign", "s": small(rng), "si": small(rng)})],
             10 => vec![json!({"op": "sub_scalar_assign", "s": small(rng), "si": small(rng)})],
             11 => { let n2 = rng.gen_range(1..=(cn + 1).min(10)); let a = rng.gen_range(0..n2); let b = rng.gen_range(0..n2);
@@ -630,7 +665,7 @@ fn seq_case(rng: &mut StdRng, n: usize, m1: usize, m2: usize, ty: &str, mag: i64
         };
         for o in batch.iter_mut() {
             if cx { if let Some(b) = o.get("b").cloned() { o["b"] = with_im(rng, b, -2, 2); } } else if let Some(m) = o.as_object_mut() { m.remove("xi"); m.remove("si"); }
-            let quiet = o.get("quiet").is_some(); if let Some(m) = o.as_object_mut() { m.remove("quiet"); }
+            let quiet = o.get("quiet").is_some(); if let Some(m) = o.as_object_mut() { m.remove("quiet"); m.remove("keepsi"); }
             sim.apply(o); ops.push(o.clone());
             if !quiet { probe(rng, &sim, &mut ops); }      // probes after every mutation
         }
@@ -662,7 +697,13 @@ fn graded_case(rng: &mut StdRng, n: usize, m1: usize, m2: usize, k: usize, cx: b
         let j = i as isize + c as isize - m1 as isize;
         let (re, im) = if j < 0 || j as usize >= n { (json!(rand_pad(rng)), json!(rand_pad(rng))) } else { let j = j as usize;
             if j < k && i > j { (json!(0), json!(0)) }                                     // nothing below the diagonal before column k
-            else if j == k && i >= k && i <= hi { if i == k && zero_diag { (json!(0), json!(0)) } else { let e = level[i - k]; (ent(rng, e), if rng.gen_bool(0.7) { ent(rng, e) } else { json!(0) }) } }
+            else if j == k && i >= k && i <= hi { if i == k && zero_diag { (json!(0), json!(0)) } else { let e = level[i - k];
+                // Complex: candidates often lie exactly on an axis; the largest one is exactly on the NEGATIVE imaginary axis half of the time
+                let neg_im = |rng: &mut StdRng| json!({"m": -rng.gen_range(1i64..=9), "e": e});
+                if cx && ((e == 0 && rng.gen_bool(0.5)) || rng.gen_bool(0.25)) { (json!(0), neg_im(rng)) }
+                else if cx && rng.gen_bool(0.3) { (json!(0), ent(rng, e)) }
+                else if cx && rng.gen_bool(0.3) { (ent(rng, e), json!(0)) }
+                else { (ent(rng, e), if rng.gen_bool(0.7) { ent(rng, e) } else { json!(0) }) } } }
             else if i == j { (json!(rng.gen_range(5i64..=9) * if rng.gen_bool(0.5) { 1 } else { -1 }), json!(rng.gen_range(-4i64..=4))) }
             else { (ent(rng, -2), ent(rng, -2)) } };
         d.push(re); di.push(im);
@@ -732,4 +773,107 @@ fn scaled_cases(rng: &mut StdRng, n: usize, m1: usize, m2: usize, quick: bool, o
             c["regular"] = json!(true); out.push(c);
         }
     } }
+}
+
+// ------------------------------------------------------------------ Gaussian integers / Gaussian rationals (exact complex checks)
+/// an f64 as an exact rational (dyadic); None if it does not fit
+pub fn f64_to_rat(x: f64) -> Option<Rat> {
+    if !x.is_finite() { return None; }
+    if x == 0.0 { return Some(Rat::int(0)); }
+    let bits = x.to_bits(); let neg = (bits >> 63) != 0; let ex = ((bits >> 52) & 0x7ff) as i64; let frac = bits & ((1u64 << 52) - 1);
+    let (mut m, mut e) = if ex == 0 { (frac as i128, -1074i64) } else { ((frac | (1u64 << 52)) as i128, ex - 1075) };
+    while m % 2 == 0 { m /= 2; e += 1; }
+    if neg { m = -m; }
+    if e >= 0 { if e > 60 { return None; } Some(Rat::new(m << e, 1)) } else { if -e > 60 { return None; } Some(Rat::new(m, 1i128 << (-e))) }
+}
+/// both parts of a value as exact rationals
+pub fn to_rat2<T: BE>(x: &T) -> Option<(Rat, Rat)> { let (re, im) = x.to_c(); Some((f64_to_rat(re)?, f64_to_rat(im)?)) }
+/// (xs + i xsi) / L with one common denominator for all real and imaginary parts
+pub fn cx_common_den(x: &[(Rat, Rat)], lim: i128) -> Option<(Vec<i64>, Vec<i64>, i64)> {
+    let all: Vec<Rat> = x.iter().flat_map(|p| [p.0, p.1]).collect();
+    let (v, l) = common_den(&all, lim)?;
+    Some((v.iter().step_by(2).cloned().collect(), v.iter().skip(1).step_by(2).cloned().collect(), l))
+}
+/// Gaussian rational
+#[derive(Clone, Copy)]
+pub struct GR { pub re: Rat, pub im: Rat }
+impl GR {
+    pub fn int(a: i64, b: i64) -> GR { GR { re: Rat::int(a), im: Rat::int(b) } }
+    pub fn is_zero(&self) -> bool { self.re.is_zero() && self.im.is_zero() }
+    pub fn sub(self, o: GR) -> GR { GR { re: self.re - o.re, im: self.im - o.im } }
+    pub fn mul(self, o: GR) -> GR { GR { re: self.re * o.re - self.im * o.im, im: self.re * o.im + self.im * o.re } }
+    pub fn div(self, o: GR) -> GR { let d = o.re * o.re + o.im * o.im; GR { re: (self.re * o.re + self.im * o.im) / d, im: (self.im * o.re - self.re * o.im) / d } }
+}
+/// exact solution of a dense Gaussian-integer system (independent of the code under test); None if singular
+pub fn gr_solve(a: &[Vec<(i64, i64)>], b: &[(i64, i64)]) -> Option<Vec<(Rat, Rat)>> {
+    let n = a.len(); let mut m: Vec<Vec<GR>> = a.iter().enumerate().map(|(i, r)| { let mut r: Vec<GR> = r.iter().map(|p| GR::int(p.0, p.1)).collect(); r.push(GR::int(b[i].0, b[i].1)); r }).collect();
+    for k in 0..n {
+        let p = (k..n).find(|&r| !m[r][k].is_zero())?; m.swap(k, p);
+        let pv = m[k][k]; for j in k..=n { m[k][j] = m[k][j].div(pv); }
+        for i in 0..n { if i != k && !m[i][k].is_zero() { let f = m[i][k]; for j in k..=n { let t = m[k][j].mul(f); m[i][j] = m[i][j].sub(t); } } }
+    }
+    Some((0..n).map(|i| (m[i][n].re, m[i][n].im)).collect())
+}
+/// the fraction-free determinant over Gaussian integers exactly as Banded.tla's CDetFF evaluates it, with the largest
+/// intermediate magnitude (to keep TLC inside its 32-bit integers)
+pub fn cbareiss(a: &[Vec<(i128, i128)>]) -> ((i128, i128), i128) {
+    let n = a.len(); if n == 0 { return ((1, 0), 1); }
+    let mut m = a.to_vec(); let mut prev = (1i128, 0i128); let mut neg = false; let mut big = 0i128;
+    let mut mul = |x: (i128, i128), y: (i128, i128), big: &mut i128| { let t = [x.0 * y.0, x.1 * y.1, x.0 * y.1, x.1 * y.0]; for v in t { *big = (*big).max(v.abs()); } let r = (t[0] - t[1], t[2] + t[3]); *big = (*big).max(r.0.abs()).max(r.1.abs()); r };
+    for k in 0..n.saturating_sub(1) {
+        let p = match (k..n).find(|&r| m[r][k] != (0, 0)) { Some(p) => p, None => return ((0, 0), big) };
+        if p != k { m.swap(k, p); neg = !neg; }
+        for i in k + 1..n { for j in k + 1..n {
+            let t1 = mul(m[i][j], m[k][k], &mut big); let t2 = mul(m[i][k], m[k][j], &mut big); let d = (t1.0 - t2.0, t1.1 - t2.1);
+            let nn = prev.0 * prev.0 + prev.1 * prev.1; let q0 = d.0 * prev.0 + d.1 * prev.1; let q1 = d.1 * prev.0 - d.0 * prev.1;
+            for v in [d.0 * prev.0, d.1 * prev.1, d.1 * prev.0, d.0 * prev.1] { big = big.max(v.abs()); }
+            big = big.max(d.0.abs()).max(d.1.abs()).max(q0.abs()).max(q1.abs()).max(nn);
+            m[i][j] = (q0 / nn, q1 / nn); }
+            m[i][k] = (0, 0); }
+        prev = m[k][k];
+    }
+    let d = m[n - 1][n - 1]; (if neg { (-d.0, -d.1) } else { d }, big)
+}
+/// can TLC decide this exact Gaussian-integer case?
+pub fn fits_tlc_cx(a: &[Vec<(i64, i64)>], b: &[(i64, i64)]) -> bool {
+    let ai: Vec<Vec<(i128, i128)>> = a.iter().map(|r| r.iter().map(|p| (p.0 as i128, p.1 as i128)).collect()).collect();
+    let (det, big) = cbareiss(&ai);
+    if big >= (1 << 30) { return false; }
+    if det == (0, 0) { return true; }
+    match gr_solve(a, b) { Some(x) => cx_common_den(&x, LIM).is_some(), None => false }
+}
+
+/// Gaussian units and near-units whose squared modulus is a power of two: dividing a Gaussian dyadic number by one of
+/// them is exact in binary floating point.  The imaginary axis (negative half included) is over-represented.
+pub const PIVOTS: [(i64, i64); 16] = [(0, 1), (0, -1), (0, 2), (0, -2), (0, 4), (0, -4), (0, -1), (0, -2), (1, 0), (-1, 0), (2, 0), (-2, 0), (1, 1), (1, -1), (-1, 1), (-1, -1)];
+/// a small Gaussian integer, mostly on one of the axes
+pub fn gint(rng: &mut StdRng, v: i64) -> (i64, i64) { match rng.gen_range(0..5) { 0 | 1 => (0, rng.gen_range(-v..=v)), 2 | 3 => (rng.gen_range(-v..=v), 0), _ => (rng.gen_range(-v..=v), rng.gen_range(-v..=v)) } }
+fn cmul(a: (i64, i64), b: (i64, i64)) -> (i64, i64) { (a.0 * b.0 - a.1 * b.1, a.0 * b.1 + a.1 * b.0) }
+/// Complex case on which every float operation of the banded elimination is exact: A = P (2L) U with U upper band q
+/// (diagonal from PIVOTS, Gaussian-integer rows), 2L lower band p with diagonal 2 and entries of modulus <= sqrt 2 (so the
+/// true pivot is strictly the largest candidate and every multiplier is a Gaussian half-integer), P exchanging disjoint
+/// adjacent row pairs (so that row exchanges do take place).  Pivots 2 u_kk are often purely imaginary.
+fn gauss_case(rng: &mut StdRng, n: usize, p: usize, q: usize, swaps: bool) -> Option<Value> {
+    let halves: [(i64, i64); 9] = [(0, 0), (1, 0), (-1, 0), (0, 1), (0, -1), (1, 1), (1, -1), (-1, 1), (-1, -1)];
+    let mut l2 = vec![vec![(0i64, 0i64); n]; n]; let mut u = vec![vec![(0i64, 0i64); n]; n];
+    for i in 0..n { for j in 0..n {
+        if i == j { l2[i][j] = (2, 0); u[i][j] = PIVOTS[rng.gen_range(0..PIVOTS.len())]; }
+        else if i > j && i - j <= p { l2[i][j] = halves[rng.gen_range(0..9)]; }
+        else if j > i && j - i <= q { u[i][j] = gint(rng, 2); }
+    } }
+    let mut a = vec![vec![(0i64, 0i64); n]; n];
+    for i in 0..n { for j in 0..n { let mut s = (0i64, 0i64); for k in 0..n { let t = cmul(l2[i][k], u[k][j]); s = (s.0 + t.0, s.1 + t.1); } a[i][j] = s; } }
+    let mut b: Vec<(i64, i64)> = (0..n).map(|_| gint(rng, 5)).collect();
+    if swaps { let mut k = 0; while k + 1 < n { if rng.gen_bool(0.5) { a.swap(k, k + 1); b.swap(k, k + 1); k += 2; } else { k += 1; } } }
+    let (mut m1, mut m2) = (0usize, 0usize);
+    for i in 0..n { for j in 0..n { if a[i][j] != (0, 0) { if i > j { m1 = m1.max(i - j); } else { m2 = m2.max(j - i); } } } }
+    if swaps { m1 = (m1 + 1).min(n - 1).max(m1); }      // (room for the fill-in is part of the storage anyway)
+    if !fits_tlc_cx(&a, &b) { return None; }
+    let mm = m1 + m2 + 1; let (mut d, mut di) = (vec![], vec![]);
+    for i in 0..n { for c in 0..mm { let j = i as isize + c as isize - m1 as isize;
+        if j >= 0 && (j as usize) < n { d.push(a[i][j as usize].0); di.push(a[i][j as usize].1); } else { d.push(rand_pad(rng)); di.push(rand_pad(rng)); } } }
+    Some(json!({"kind": "lu", "ty": "cx", "mode": "exact", "fam": "gauss", "swaps": swaps,
+        "band": {"n": n, "m1": m1, "m2": m2, "c": {"r": n, "c": mm, "d": d}, "ci": {"r": n, "c": mm, "d": di}},
+        "b": b.iter().map(|p| p.0).collect::<Vec<i64>>(), "bi": b.iter().map(|p| p.1).collect::<Vec<i64>>(),
+        "v": rand_vec_json(rng, n, -3, 3), "vi": rand_vec_json(rng, n, -3, 3)}))
 }
